@@ -56,7 +56,7 @@ OBLIGATIONS = [
 
 SRC_OBLIGATIONS = [
     # source-level tie (Api/SrcProg*.v): the programs regenerated from today's source denote the scripts above
-    "C13_src_estimate_pure", "C13_src_mcmc_call_clean", "C13_src_scipy_call_pure", "C13_src_settings_copied", "C13_src_examples",
+    "C13_src_estimate_pure", "C13_src_mcmc_call_clean", "C13_src_scipy_call_pure", "C13_src_simulate_pure", "C13_src_settings_copied", "C13_src_examples",
 ]
 OBLIGATIONS += SRC_OBLIGATIONS
 
@@ -1005,6 +1005,9 @@ def trace_tie(run: Run, thorough: bool, src_ok: bool = False):
                         ev, res = record_call(model, op, kind)
                         try:
                             t = encode_call(ev, var_ix)
+                            if src_ok:
+                                cases["simulate_src"].append(f"({coq_sinst(var_ix, model_groups(model, var_ix), 0)}, {coq_trace(t)})")
+                                meta["simulate_src"].append(dict(kind=kind, history=hist, op=op, trace=t))
                             cases["simulate"].append(f"({anc_l}, {coq_nats(kept)}, {shape}, {coq_trace(t)})")
                             meta["simulate"].append(dict(kind=kind, history=hist, op=op, trace=t))
                         except EncodeError as e:
@@ -1060,7 +1063,7 @@ def trace_tie(run: Run, thorough: bool, src_ok: bool = False):
               ("scipy", "list (list nat) * list nat * list nat * list nat * list (option unit) * nat * list rop", "check_scipy_call")]
     if src_ok:
         checks += [("estimate_src", "bool * " + SRC_CASE, "check_estimate_src"), ("mcmc_src", SRC_CASE, "check_mcmc_src"),
-                   ("scipy_src", SRC_CASE, "check_scipy_src")]
+                   ("scipy_src", SRC_CASE, "check_scipy_src"), ("simulate_src", "sinst * list rop", "check_simulate_src")]
     for name, ty, chk in checks:
         header = SRC_HEADER if name.endswith("_src") else TIE_HEADER
         if not cases[name]:
